@@ -517,6 +517,10 @@ class SVGPath(SVGShape, SVGCommandSeq):
         def subpaths_callback(subpath_start, curr_pos, cmd, args, *_unused):
             if cmd.upper() == "M":
                 subpaths.append(SVGPath())
+            elif not subpaths[-1].d:
+                # a subpath that follows a closepath starts where that one started;
+                # make the moveto explicit so the subpath can stand on its own
+                subpaths[-1]._add_cmd("M", *curr_pos)
             subpaths[-1]._add_cmd(cmd, *args)
             if cmd.upper() == "Z":
                 subpaths.append(SVGPath())
